@@ -211,7 +211,7 @@ def goodbye(ctx: Any) -> List[Ob]:
     atoms_t = {k: True for k in done_atoms(ctx, cf)}
 
     def eff4(node: Any, evl: Any) -> List[Any]:
-        out = [norm(c.func) for c in node.calls()]
+        out = [norm(c.func) for c in node.calls() if not norm(c.func).startswith(('log.', 'logging.'))]  # a log line is not an effect
         if node.kind == 'stmt':
             out += [norm(t) for t, _ in attr_stores(node.ast)]
         return out
